@@ -7,7 +7,9 @@
   hold for every source class (any hierarchy behind it), every operator, every list of names, every
   world that contains `Structure`, and — by induction on the operator list — compositions of any
   length.  Where the code today violates the statement the theorem proved is the `_partial` one
-  with an explicit exclusion and a kernel-checked counterexample (= known finding).
+  with an explicit exclusion and a kernel-checked counterexample (= known finding).  Two former
+  findings are fixed in /repo (61d07fa inherited `_ignore_none`, c926eea AllFieldsRequired +
+  Constant); their theorems are now unconditional.
 -/
 import TypedpyModel.Lemmas.Derive
 import TypedpyModel.Props.C14
@@ -20,7 +22,7 @@ theorem derive_shape {O : Oracles} {w : World} (hS : HasStructure w) {c d : Clas
     d.allFields = updateAll [] (derivedFields c op) ∧ d.mro = [nm, "Structure"] ∧ d.name = nm
     ∧ d.required = dedupStr ((derivedRequired c op).filter fun n =>
           !((derivedFields c op).any fun p => p.1 == n && p.2.hasDefault))
-    ∧ d.ignoreNone = c.ownIgnoreNone.getD false ∧ d.bases = ["Structure"] := by
+    ∧ d.ignoreNone = c.ignoreNone ∧ d.bases = ["Structure"] := by
   unfold deriveClass at h
   rcases bindE_eq_ok h with ⟨src, hsrc, hd⟩
   rcases defineClass_ok hd with ⟨_, rfl⟩
@@ -72,34 +74,46 @@ theorem derive_field_behaviour (O : Oracles) {w : World} (hS : HasStructure w) {
     inherited field with a default is listed in `_required` by a subclass) -/
 def ReqNoDefault (c : ClassDef) : Prop := ∀ n ∈ c.required, memberHasDefault c.allFields n = false
 
-theorem mem_filter_noDefault {l : List (String × Member)} (hk : KeysNodup l) (n : String) :
-    n ∈ (l.filter fun p => !p.2.hasDefault).map (·.1) ↔
-      (n ∈ l.map (·.1) ∧ memberHasDefault l n = false) := by
+theorem mem_filter_needsValue {l : List (String × Member)} (hk : KeysNodup l) (n : String) :
+    n ∈ (l.filter fun p => p.2.needsValue).map (·.1) ↔ memberNeedsValue l n = true := by
   induction l with
-  | nil => simp
+  | nil => simp [memberNeedsValue, lookup]
   | cons p ps ih =>
     obtain ⟨k, m⟩ := p
     have hnd : k ∉ ps.map (·.1) ∧ (ps.map (·.1)).Nodup := List.nodup_cons.mp hk
     have ih' := ih hnd.2
     by_cases hnk : n = k
     · subst hnk
-      have hps : n ∉ (ps.filter fun p => !p.2.hasDefault).map (·.1) := by
-        intro hm; exact hnd.1 (ih'.mp hm).1
-      cases hd : m.hasDefault
-      · simp [List.filter, hd, memberHasDefault, lookup]
-      · simp only [List.filter, hd, Bool.not_true, memberHasDefault, lookup, beq_self_eq_true, if_true]
+      have hps : n ∉ (ps.filter fun p => p.2.needsValue).map (·.1) := by
+        intro hm
+        rcases List.mem_map.mp hm with ⟨q, hq, hqn⟩
+        exact hnd.1 (hqn ▸ List.mem_map_of_mem (List.mem_filter.mp hq).1)
+      cases hd : m.needsValue
+      · simp only [List.filter, hd, memberNeedsValue, lookup, beq_self_eq_true, if_true]
         constructor
         · intro hm; exact absurd hm hps
-        · intro hm; cases hm.2
+        · intro hm; cases hm
+      · simp [List.filter, hd, memberNeedsValue, lookup]
     · have hb : (n == k) = false := by simpa using hnk
-      have hm' : memberHasDefault ((k, m) :: ps) n = memberHasDefault ps n := by
-        simp [memberHasDefault, lookup, hb]
+      have hm' : memberNeedsValue ((k, m) :: ps) n = memberNeedsValue ps n := by
+        simp [memberNeedsValue, lookup, hb]
       rw [hm']
-      cases hd : m.hasDefault
-      · simp only [List.filter, hd, Bool.not_false, List.map_cons, List.mem_cons, hnk, false_or]
+      cases hd : m.needsValue
+      · simp only [List.filter, hd]
         exact ih'
-      · simp only [List.filter, hd, Bool.not_true, List.map_cons, List.mem_cons, hnk, false_or]
+      · simp only [List.filter, hd, List.map_cons, List.mem_cons, hnk, false_or]
         exact ih'
+
+theorem needsValue_noDefault {l : List (String × Member)} {n : String}
+    (h : memberNeedsValue l n = true) : memberHasDefault l n = false := by
+  simp only [memberNeedsValue, memberHasDefault] at h ⊢
+  cases hl : lookup n l with
+  | none => rfl
+  | some m =>
+    rw [hl] at h
+    cases m with
+    | const v => rfl
+    | field d dflt => cases dflt <;> simp_all [Member.needsValue, Member.hasDefault]
 
 theorem memberHasDefault_derived (c : ClassDef) (op : DeriveOp) (n : String) :
     memberHasDefault (derivedFields c op) n = (keeps op n && memberHasDefault c.allFields n) := by
@@ -117,12 +131,9 @@ theorem derive_required_partial {O : Oracles} {w : World} (hS : HasStructure w) 
   cases op with
   | partialOf => simp [derivedRequired, specRequires]
   | allRequired =>
-    simp only [derivedRequired, specRequires, keeps, Bool.true_and, mem_filter_noDefault hk]
-    simp only [ClassDef.fieldNames, List.contains_eq_mem, Bool.and_eq_true, decide_eq_true_eq,
+    simp only [derivedRequired, specRequires, keeps, Bool.true_and, mem_filter_needsValue hk,
       Bool.not_eq_true']
-    constructor
-    · intro hx; exact hx.1
-    · intro hx; exact ⟨hx, hx.2⟩
+    exact ⟨fun hx => hx.1, fun hx => ⟨hx, needsValue_noDefault hx⟩⟩
   | extend =>
     simp only [derivedRequired, specRequires, keeps, Bool.true_and, List.contains_eq_mem,
       decide_eq_true_eq, Bool.not_eq_true']
@@ -172,22 +183,24 @@ theorem derive_pure (O : Oracles) (w : World) (s : Step) (n : String) (c : Class
   | ok d => exact find_add_of_some h
   | error e => exact h
 
-/-- C12 (class-level None handling): the derived class ignores None exactly when the source does,
-    provided the source's `_ignore_none` is its own attribute (or unset). -/
-theorem derive_ignore_none_partial {O : Oracles} {w : World} (hS : HasStructure w) {c d : ClassDef}
-    {nm : String} {op : DeriveOp} (h : deriveClass O w c nm op = .ok d)
-    (hown : c.ownIgnoreNone.getD false = c.ignoreNone) : d.ignoreNone = c.ignoreNone := by
-  rw [(derive_shape hS h).2.2.2.2.1, hown]
+/-- C12 (class-level None handling): the derived class ignores None exactly when the source does
+    (whether `_ignore_none` is the source's own attribute or inherited). -/
+theorem derive_ignore_none {O : Oracles} {w : World} (hS : HasStructure w) {c d : ClassDef}
+    {nm : String} {op : DeriveOp} (h : deriveClass O w c nm op = .ok d) :
+    d.ignoreNone = c.ignoreNone :=
+  (derive_shape hS h).2.2.2.2.1
 
-def derive_ignore_none_statement : Prop :=
-  ∀ (O : Oracles) (w : World) (c d : ClassDef) (nm : String) (op : DeriveOp), HasStructure w →
-    w.find c.name = some c → deriveClass O w c nm op = .ok d → d.ignoreNone = c.ignoreNone
-
-/-- finding `derive-raises:allRequired:constant`: `getattr(v, "_default")` on a Constant -/
-theorem allRequired_constant_AttributeError (O : Oracles) (w : World) (c : ClassDef) (nm : String)
-    (h : c.allFields.any (fun p => p.2.isConst) = true) :
-    deriveClass O w c nm .allRequired = .error (.other "AttributeError") := by
-  simp [deriveClass, deriveSrc, h]
+/-- C12 (AllFieldsRequired and Constants): a Constant of the source is carried over unchanged and
+    is not required -/
+theorem allRequired_keeps_constants {O : Oracles} {w : World} (hS : HasStructure w) {c d : ClassDef}
+    {nm : String} (hk : KeysNodup c.allFields) (hr : ReqNoDefault c)
+    (h : deriveClass O w c nm .allRequired = .ok d) {n : String} {v : PyVal}
+    (hc : lookup n c.allFields = some (.const v)) :
+    lookup n d.allFields = some (.const v) ∧ n ∉ d.required := by
+  refine ⟨by rw [derive_field_same hS hk h]; simpa [keeps] using hc, ?_⟩
+  intro hn
+  have := (derive_required_partial hS hk hr h n).mp hn
+  simp [specRequires, memberNeedsValue, hc, Member.needsValue] at this
 
 /-! ### closure under composition (any number of operators) and further extension -/
 
@@ -317,26 +330,28 @@ def strD : SrcEntry := .field (.string none none none) (some (.lit (.str "x"))) 
 
 def getCls (w : World) (n : String) : ClassDef := (w.find n).getD (mixinDef "?")
 
-/-- finding `ignore-none-dropped:inherited`: `_ignore_none` inherited by the source (not in its
-    own `__dict__`) is not copied by `_init_class_dict` -/
+/-- fixed finding `ignore-none-dropped:inherited` (61d07fa): an `_ignore_none` the source only
+    inherits is kept -/
 def ignWorld : World :=
   runSteps exO W0 [.define { name := "Ba", bases := ["Structure"], entries := [("a", intF)], ignoreNone := some true },
                    .define { name := "Mid", bases := ["Ba"], entries := [("b", intF)] },
                    .derive .partialOf "Mid" "PMid"]
 
-theorem inherited_ignore_none_dropped :
-    (getCls ignWorld "Mid").ignoreNone = true ∧ (getCls ignWorld "PMid").ignoreNone = false
+theorem inherited_ignore_none_kept :
+    (getCls ignWorld "Mid").ignoreNone = true ∧ (getCls ignWorld "PMid").ignoreNone = true
     ∧ (getCls ignWorld "PMid").fieldNames = ["a", "b"] ∧ (getCls ignWorld "PMid").required = [] := by
   decide
 
-/-- finding `derive-raises:allRequired:constant` on a concrete class -/
+/-- fixed finding `derive-raises:allRequired:constant` (c926eea): AllFieldsRequired on a class with a
+    Constant returns a class; the Constant stays a constant and is not required -/
 def constWorld : World :=
   runSteps exO W0 [.define { name := "Ba", bases := ["Structure"],
-                             entries := [("a", intF), ("c", .obj (.const (.int 3)))] }]
+                             entries := [("a", intF), ("s", strD), ("c", .obj (.const (.int 3)))] },
+                   .derive .allRequired "Ba" "R"]
 
 theorem allRequired_constant_example :
-    isError (deriveClass exO constWorld (getCls constWorld "Ba") "R" .allRequired) = true
-    ∧ isError (deriveClass exO constWorld (getCls constWorld "Ba") "P" .partialOf) = false := by
+    (getCls constWorld "R").fieldNames = ["a", "s", "c"] ∧ (getCls constWorld "R").required = ["a"]
+    ∧ (getCls constWorld "R").constants.map (·.1) = ["c"] := by
   decide
 
 /-- finding `required-set:extend:source-requires-field-with-default`: a subclass may list an
